@@ -330,6 +330,11 @@ func (en *DefaultEngine) runFirst(ctx context.Context) (bool, error) {
 	en.ca.Push()
 	rs := resource.NewMenuResource()
 	rs.AddLocalFunc("_first", en.first)
+	// the temporary stack level must not cost the session its page index
+	sizeIdx := en.st.SizeIdx
+	defer func() {
+		en.st.SizeIdx = sizeIdx
+	}()
 	en.st.Down("_first")
 	defer en.ca.Pop()
 	defer en.st.Up()
